@@ -36,29 +36,35 @@ ASSUMPTIONS = [
 CLAIM = dict(
     category="proof",
     technique="Lean 4 proofs that the lexer's number scanners accept only Python integer/floatnumber spellings (reference "
-              "grammar as data, decided by a verified derivative matcher) with Python's value, and that repr-style and "
-              "alternative escape spellings of every string decode to that string + exhaustive three-way differential "
-              "enumeration of number spellings and random literal round trips on the real lexer, parser and compiler",
-    text="Theorems (Props/C14.lean): whenever the tag lexer's integer scanner matches, the matched text derives from "
-         "Python's `integer` grammar and int(text.replace('_',''), 0) as modelled succeeds with the value the reference "
-         "assigns (int_token_python); likewise the float scanner against `floatnumber` with the exact decimal "
-         "mantissa*10^exp (float_token_python); hence any number token the tag rule emits is a Python literal of the same "
-         "kind and value (number_token_python, i.e. DESIGN's number_never_longer); for every string of code points "
-         "< 0x110000 (lone surrogates included), both quote characters and every per-character choice among raw, "
-         "single-character escape, \\xhh, \\ooo, \\uhhhh, \\Uhhhhhhhh the lexer reads the quoted spelling as one string "
-         "token whose unescaped value is the string (string_roundtrip, repr_roundtrip for the choice repr() makes, with "
-         "str.isprintable a parameter); adjacent string tokens denote the concatenation (adjacent_concat); on bodies "
-         "without a backslash directly followed by a non-ASCII character the encode/decode pipeline agrees with the "
-         "reference escape table on every escape item (escape_item_spec_partial: per item, not yet for whole bodies). "
-         "The derivative matcher that runs the grammar in the driver is proved to decide the grammar (accepts_iff). "
-         "Tie: every spelling of length <=4 (quick) / <=5 (thorough) over [0-9_.eExXoObB+-] through the real lexer, "
-         "Python's parser, the Lean model and the Lean grammar; random strings over all code point classes (quotes, "
-         "backslashes, line breaks, controls, Latin-1, BMP, lone surrogates, astral) in repr and mixed spellings with "
-         "adjacent pieces, random escape soups against eval, big integers in four bases with underscores, boundary and "
-         "random floats in several spellings, each through tokens, Environment.parse, compile_expression and render.",
-    note="Trusted: Lean kernel; hand models of int/literal_eval/codecs (tied by correspondence); IEEE rounding and \\N{} "
-         "assumed. Known findings: F13 ('\\é' gives '\\xe9'); a float literal that overflows to inf compiles to the bare "
-         "name `inf` (NameError at render unless constant-folded into output).",
+              "grammar as data, decided by a verified derivative matcher) and convert integers to Python's value, and that "
+              "repr-style and alternative escape spellings of every string decode to that string + exhaustive four-way "
+              "differential enumeration of number spellings and random literal round trips on the real lexer, parser and compiler",
+    text="Theorems (Props/C14.lean): whatever text the integer scanner matches derives from Python's `integer` grammar, "
+         "int(text.replace('_',''), 0) as modelled succeeds on it and yields the value the reference assigns to the "
+         "spelling with its underscores (int_token_python); whatever text the float scanner matches derives from "
+         "`floatnumber` (float_token_python_partial: the equality of the modelled literal_eval result with the reference "
+         "decimal mantissa*10^exp is NOT proved, it is checked by the run on every spelling and on random floats); hence a "
+         "number token emitted by the tag rule is never a spelling Python rejects or reads as the other kind "
+         "(number_token_python = DESIGN's number_never_longer); for every string of code points < 0x110000 (lone "
+         "surrogates included), either quote character and every per-character choice among raw, single-character escape, "
+         "\\xhh, \\ooo, \\uhhhh, \\Uhhhhhhhh, wrap's normalise/backslashreplace/unicode-escape pipeline returns exactly the "
+         "string (string_value_roundtrip), and the tag rule reads the quoted spelling as one string token with that value "
+         "wherever it stands (string_roundtrip; raw code points must be scalar values because model source text is List "
+         "Char), in particular for the spelling repr() chooses, str.isprintable being a parameter (repr_roundtrip); a run of "
+         "adjacent string tokens denotes the concatenation (adjacent_concat). The derivative matcher that runs the grammar "
+         "in the driver is proved to decide the grammar (accepts_iff, Lemmas/PyLiteral.lean). Not proved: agreement of the "
+         "escape decoder with the reference escape table on arbitrary bodies (DESIGN's string_escape_spec_partial) - "
+         "correspondence only. Tie: every spelling of length <=4 (quick) / <=5 (thorough) over [0-9_.eExXoObB+-] through "
+         "the real lexer, Python's parser, the Lean model and the Lean grammar, each accepted one also through "
+         "compile_expression and render; random strings over all code point classes (quotes, backslashes, line breaks, "
+         "controls, Latin-1, BMP, lone surrogates, astral) in repr, other-quote and mixed spellings with adjacent pieces "
+         "through tokens, Environment.parse, compile_expression, render and the Lean model; random escape soups against "
+         "eval and the Lean escape table; big integers in four bases with underscores; boundary and random floats in "
+         "several spellings, also negated.",
+    note="Trusted: Lean kernel; hand models of integer_re/float_re/string_re, int(s,0), literal_eval, the two codecs and "
+         "repr (tied by correspondence); IEEE rounding and \\N{} assumed. Known findings: F13 ('\\é' gives '\\xe9'); a float "
+         "literal that overflows to inf is compiled to the bare name `inf` (NameError at render unless constant-folded "
+         "into template data).",
     design_ref="§5 C14",
 )
 
@@ -221,7 +227,6 @@ def run_numbers(ctx, res, env):
     union = set()
     samples = []
     spec_bad = []
-    e2e_every = 1 if ctx.quick else 1
     for L in range(1, n + 1):
         for tup in itertools.product(ALPHABET, repeat=L):
             sp = "".join(tup)
@@ -259,8 +264,7 @@ def run_numbers(ctx, res, env):
                                 f"the lexer reads {sp!r} as {j[0]} {j[1]!r}; Python reads {p!r}",
                                 {"kind": "number", "spelling": sp})
                 else:
-                    if stats["jinja_one_number"] % e2e_every == 0:
-                        check_number_e2e(env, res, sp, p, stats)
+                    check_number_e2e(env, res, sp, p, stats)
                     if len(samples) < 6 and ("_" in sp or "e" in sp.lower()) and L >= 3 and stats["jinja_one_number"] % 97 == 0:
                         samples.append({"spelling": sp, "value": repr(p)})
             # tie: model of the lexer + conversion == real lexer + conversion
